@@ -847,7 +847,7 @@ fn gen_kdf(r: &mut Rng, id: String) -> Value {
     }
     if mode == "1pu" {
         let v = perturb_bytes(r, &case["tag"]);
-        if value_from_json(&v).len() <= 124 { ps.push(json!({"f": "tag", "v": v})); }
+        if value_from_json(&v).len() <= 128 { ps.push(json!({"f": "tag", "v": v})); }
         let c = case["snd"]["c"].as_str().unwrap_or("x25519").to_string();
         if curve_zlen(&c).is_some() { let k = gen_other_key(r, &c, &case["snd"]); ps.push(json!({"f": "snd", "v": k})); }
     }
